@@ -391,6 +391,43 @@ def f2(a0: uint256) -> uint256:
     v1: uint256 = min((a0 // 2), v0.m0)
     return 4
 """),
+    ("regress/disable_remove_unused_variables_param_write", """
+s1: bool
+s2: HashMap[address, uint64]
+last: public(uint64)
+
+@internal
+def g1(a0: uint8, a1: uint256) -> bool:
+    if (False if convert(a1, bool) else False):
+        a1 = 0
+    return False
+
+@external
+def f1() -> int16:
+    self.g1(23, 1)
+    return 0
+
+@external
+@payable
+def f2() -> int8:
+    v0: uint256 = msg.value
+    if (False if self.s1 else self.g1(127, v0)):
+        pass
+    self.s2[0x1111111111111111111111111111111111111111] += (convert(v0, uint64) % 9223372036854775808)
+    self.last = self.s2[0x1111111111111111111111111111111111111111]
+    return 2
+"""),
+    ("regress/venom_loop_load_forwarding", """
+s1: uint64
+
+@external
+def f0() -> uint64:
+    v2: uint64 = self.s1
+    for v1: uint256 in range(3):
+        self.s1 ^= 1
+    self.s1 *= v2
+    return self.s1
+"""),
     ("regress/default_empty_bucket", """
 event Fell:
     x: uint256
